@@ -205,7 +205,16 @@ pub fn after_txn(w: &mut World, r: usize, effects: &[Effect], _emitted: usize, _
     }
     if w.mon.c05 {
         let txn = w.reps[r].doc.transact();
-        let integ = integrated_units(&yrs::verif::store_blocks(&txn));
+        let mut integ = integrated_units(&yrs::verif::store_blocks(&txn));
+        // a write the author holds only as a GC range (received, out of causal order, from a replica
+        // where the parent was already deleted and collected) is anonymous there: no parent, no key,
+        // no place in the key's chain. The author has not seen it as a write of this register, so a
+        // new write does not causally overwrite it (the receiver-side rule of check_lww, mirrored)
+        for b in yrs::verif::store_blocks(&txn).iter().filter(|b| b.kind == 1) {
+            for k in b.id.clock..b.id.clock + b.len {
+                integ.remove(&(b.id.client.get(), k));
+            }
+        }
         let mut nested: Vec<&Item> = vec![];
         // writes of this transaction per register, in call order
         let mut per_reg: Vec<((String, String), Vec<String>)> = vec![];
